@@ -11,6 +11,8 @@ Driver ops of the connection / client / STOMP receivers (C05, FV.Model.Receivers
   htc <c|o> <limit> <method> <status> <body> <decoded|!>
                             FStandardClient.Call / Oneway over fHTTPTransport (the model sees status + decoded)
 
+  htr <c|o> <method> <status> <framing> <close|hold> <sent> <decoded|!|x>
+                            the same over a raw socket: Content-Length / chunk sizes chosen by the peer
   big <entry> <limit> <scenario> <cid-len> <opid-len> <writes> <fallback-writes>
                             the reply step of a server worker with large echoed header values (FV.Recv5)
 
@@ -38,6 +40,22 @@ def showReplyOutcome (o : Recv3.ReplyOutcome) : String :=
     | .badType => "bad-type"
     | .reply => "reply"
   s!"stage={st} hdrs={pairsOf o.added}"
+
+def parseChunk (c : String) : Option (Nat × Nat) :=
+  match c.splitOn ":" with
+  | [a, k] => do pure (← a.toNat?, ← k.toNat?)
+  | _ => none
+
+/-- `L<n>` = Content-Length n; `K<a>:<k>,…[T]` = chunked (announced size : bytes carried), T = terminated. -/
+def parseFraming (fr : String) : Option Recv4.Framing :=
+  match fr.toList with
+  | 'L' :: r => (String.ofList r).toNat?.map Recv4.Framing.length
+  | 'K' :: r =>
+    let t := r.getLast? == some 'T'
+    let core := String.ofList (if t then r.dropLast else r)
+    if core == "" then some (Recv4.Framing.chunked [] t)
+    else ((core.splitOn ",").mapM parseChunk).map (fun cs => Recv4.Framing.chunked cs t)
+  | _ => none
 
 def stepReceivers2 (op : String) (args : List String) : Option String :=
   match op, args with
@@ -74,6 +92,23 @@ def stepReceivers2 (op : String) (args : List String) : Option String :=
       pure (showRes (fun o => match o with | none => "ok" | some e => "req:" ++ errName e) (Recv4.httpOneway st body))
     else if mode == "c" then
       pure (match Recv4.httpCall true m st body with
+        | .req e => "req:" ++ errName e
+        | .reply o => showReplyOutcome o
+        | .nilDeref => "panic:other"
+        | .panic p => "panic:" ++ panicName p)
+    else none
+  | "htr", [mode, m, st, fr, _ending, sent, dec] => do
+    -- the HTTP envelope with size fields chosen by the peer; `dec` = base64 of the delivered bytes (x = none)
+    let m ← unhex m
+    let st ← st.toNat?
+    let sent ← unhex sent
+    let body : Recv4.B64 ← if dec == "!" || dec == "x" then some Recv4.B64.invalid else (unhex dec).map Recv4.B64.decoded
+    let framing ← parseFraming fr
+    if mode == "o" then
+      pure (showRes (fun o => match o with | none => "ok" | some e => "req:" ++ errName e)
+        (Recv4.httpOnewayEnvelope (fun _ => body) st framing sent))
+    else if mode == "c" then
+      pure (match Recv4.httpCallEnvelope (fun _ => body) true m st framing sent with
         | .req e => "req:" ++ errName e
         | .reply o => showReplyOutcome o
         | .nilDeref => "panic:other"
